@@ -103,6 +103,7 @@ struct TpdoRun : NodeEnv {
         if (k == "sync" && o.arg(0, 1) > 1) { int64_t cnt = std::min<int64_t>(o.arg(0), 2000); cov.hit("long-sync-run"); if (cnt >= 256) cov.hit("sync-run-of-256-or-more"); for (int64_t i = 0; i < cnt && v.ok; i++) op(Op("sync")); return; }   // every SYNC of a run is judged on its own
         size_t mk = w.mark(); uint64_t t0 = now(); exp.clear(); bool judge = true;
         if (k == "obj" || k == "tpdo") return;
+        if (k == "sendfail") { S().sendFail = (int)(o.arg(0) % 4); cov.hit("F5-can-send-failure"); return; }   // the next n frames are refused by the CAN driver: an attempt counts as the transmission, nothing is retried
         if (k == "tick") { w.tick(0, (uint64_t)o.arg(0)); }
         else if (k == "nmt") { uint8_t cs = (uint8_t)o.arg(0); deliver(Frame(0, 2, {cs, 0})); if (cs == 1) enterMode(M_OP); else if (cs == 2) enterMode(M_STOP); else if (cs == 128) enterMode(M_PREOP); else if (cs == 129 || cs == 130) { enterMode(M_PREOP); } }
         else if (k == "wr" || k == "sdowr") {
@@ -189,7 +190,7 @@ Plan gen_tpdo(Rng &r, bool thorough) {
         else if (c == 14) p.ops.push_back(Op("trigobj", {(int64_t)r.below((uint32_t)nobj)}));
         else if (c < 17) { if (r.chance(1, 12)) p.ops.push_back(Op("sync", {r.chance(1, 2) ? r.range(250, 600) : r.range(2, 1100)})); else p.ops.push_back(Op("sync")); }
         else if (c == 17) { std::vector<uint8_t> b; for (int j = 0; j < 8; j++) b.push_back(r.byte()); p.ops.push_back(Op("rpdo", {}, b)); }
-        else if (c == 18) p.ops.push_back(Op("nmt", {r.pick<int64_t>({1, 1, 2, 128, 130})}));
+        else if (c == 18) p.ops.push_back(r.chance(1, 3) ? Op("sendfail", {r.range(1, 3)}) : Op("nmt", {r.pick<int64_t>({1, 1, 2, 128, 130})}));
         else if (c < 21) p.ops.push_back(Op("cobid", {(int64_t)r.below(4), (int64_t)r.below(2)}));
         else if (c < 23) p.ops.push_back(Op("evtime", {(int64_t)r.below(4), r.chance(1, 4) ? 0 : r.pick<int64_t>({1, 2, 3, 5, 10, 20}) * u}));
         else p.ops.push_back(Op("inhtime", {(int64_t)r.below(4), r.pick<int64_t>({0, 1, 5, 10}) * u * 10}));
